@@ -793,6 +793,12 @@ class BaseIOStream:
             # when making changes here. See #2651 and #2719.
             self._check_closed()
             assert self._read_future is None, "Already reading"
+        # Forget the parameters of any previous read that did not complete
+        # normally (e.g. it failed because the stream was closed), so they
+        # cannot influence this one.
+        self._read_bytes = self._read_delimiter = self._read_regex = None
+        self._read_max_bytes = None
+        self._read_partial = False
         self._read_future = Future()
         return self._read_future
 
